@@ -30,8 +30,18 @@ class ExtractError(Exception):
     pass
 
 
+LEMMA_ROOT = os.path.join(os.path.dirname(os.path.dirname(os.path.abspath(__file__))), "lemmas", "py")
+
+
 def module_path(modname: str, repo: str | None = None) -> str:
     repo = repo or REPO
+    if modname == "vlemmas" or modname.startswith("vlemmas."):
+        # lemma harnesses: compositions of repository functions kept in /verif (proved against the callees' contracts)
+        base = os.path.join(LEMMA_ROOT, *modname.split("."))
+        for cand in (base + ".py", os.path.join(base, "__init__.py")):
+            if os.path.exists(cand):
+                return cand
+        raise ExtractError(f"lemma module not found: {modname}")
     best = None
     for root in PKG_ROOTS:
         if modname == root or modname.startswith(root + "."):
